@@ -4,6 +4,8 @@ Monitor (a): metamorphic contract on canonicalize_molecule (shadow relabellings 
 Monitor (b): trace checker "one string per molecule id" over pipeline executions on variants that enter as
              graphs and as V3000 text with permuted atom lines, bond lines, bond endpoints and index values.
 """
+import json
+import os
 import random
 
 from .. import bridge, monitors
@@ -15,6 +17,7 @@ from . import common
 
 SPEC = {
     "level": "exploration",
+    "suite_under_monitor": True,
     "technique": "metamorphic runtime contract (icontract) on canonicalize_molecule + trace checker over pipeline events",
     "rule": ("cases = abstract molecules from classes M1 (all labelled graphs n<=4/5 x 3-colour palette), M2 random organic, "
              "M3 symmetric skeletons with partially labelled orbits, M4 multi-component, M5 all-element formulas, M6 corpus molfiles; "
@@ -25,7 +28,8 @@ SPEC = {
                     "molecules <= 60 atoms in random classes; corpus as shipped",
                     "text route renders with the harness's own V3000 renderer"],
     "shards": {"quick": 16, "thorough": 16},
-    "monitors_required": ["c01_shadow_compare", "c01_trace_compare"],
+    "exhaustive_note": "all labelled simple graphs on n<=4 vertices x 3^n colourings from {C, 13C, C radical} (quick); n=5 sampled in thorough",
+    "monitors_required": ["c01_shadow_compare", "c01_trace_compare", "c01_exhaustive_class_compare"],
     "required_obs": {"quick": ["cov_multi_component", "cov_isotope_and_radical_on_one_atom", "cov_symmetric_partial_orbit",
                                "cov_text_route_variant", "cov_nontrivial_relabelling", "cov_corpus"]},
     "watchdog_s": {"quick": 900, "thorough": 3600},
@@ -112,12 +116,16 @@ def run_case(ctx, case):
     if case.get("cls") == "M6":
         ctx.count("cov_corpus")
     ctx.seen("classes", case.get("cls"))
+    if case.get("cls") == "M1" and getattr(ctx, "events", None) is not None:
+        c, e = bridge.colors_edges(g0)
+        ctx.events.write(json.dumps({"k": h(iso.canon_small(c, e)), "s": s0, "name": case.get("name")}) + "\n")
     ctx.sample({"class": case.get("cls"), "name": case.get("name"), "atoms": n, "string": s0[:120], "variants": len(strings) - 1})
 
 
 def run(ctx):
     plan = PLAN[ctx.tier]
     monitors.install(ctx, {"C01"}, k_relabel=plan["k"], seed=f"{ctx.seed}/{ctx.shard}")
+    ctx.events = open(ctx.events_path, "w")
     k = 0
     for mol in common.small_exhaustive(ctx, plan["small_n"]):
         if plan.get("small_sample") and len(mol.atoms) == plan["small_n"] and ctx.rng.random() > plan["small_sample"]:
@@ -134,7 +142,30 @@ def run(ctx):
         run_case(ctx, {"kind": "mol", "mol": mol.to_json(), "cls": "M6cfi", "name": mol.name, "vseed": f"{ctx.seed}/{mol.name}"})
 
 
+def post_merge(res, tier, seed, repo, work):
+    """Exhaustive small sub-space: every labelled graph is a relabelling of its class representative, so
+    'one string per independent canonical form' over the merged event log is C01 on ALL n! relabellings."""
+    by_class = {}
+    n = 0
+    for f in sorted(os.listdir(work)):
+        if f.endswith(".events"):
+            for line in open(os.path.join(work, f)):
+                e = json.loads(line)
+                n += 1
+                by_class.setdefault(e["k"], {}).setdefault(e["s"], e["name"])
+    violations = []
+    for k, strings in by_class.items():
+        if len(strings) > 1:
+            violations.append({"property": "C01", "monitor": "trace:one-string-per-isomorphism-class(exhaustive)", "seed": seed, "tier": tier, "shard": -1,
+                               "witness": {"what": "labelled versions of one small molecule (same independent canonical form) got different strings",
+                                           "strings": [[name, s] for s, name in list(strings.items())[:4]]}, "case": None})
+    return {"obs": {"exhaustive_events": n, "exhaustive_isomorphism_classes": len(by_class)}, "violations": violations[:10],
+            "monitor_evals": {"c01_exhaustive_class_compare": len(by_class)}}
+
+
 def replay(ctx, w):
     plan = PLAN[ctx.tier]
+    if w.get("case") is None:
+        return
     monitors.install(ctx, {"C01"}, k_relabel=max(8, plan["k"]), seed="replay")
     run_case(ctx, w["case"])
